@@ -80,9 +80,16 @@ case "$cmd" in
   setup)
     gen_mod
     rc=0
+    # only worlds that serve a property claimed in MANIFEST.json must build; others are work in progress
     for w in $(awk '{print $2}' "$SIM/props.txt" | sort -u); do
-      echo "building world $w"
-      build_world "$w" || rc=2
+      claimed=0
+      for p in $(awk -v w="$w" '$2==w {print $1}' "$SIM/props.txt"); do
+        grep -q "\"property_id\": \"$p\"" "$V/MANIFEST.json" && claimed=1
+      done
+      echo "building world $w (claimed=$claimed)"
+      if ! build_world "$w"; then
+        [ $claimed = 1 ] && rc=2
+      fi
     done
     exit $rc
     ;;
